@@ -1,6 +1,7 @@
 """Per-property configuration of ./check: which lemma files to build, which statement file to compile, which probes
    (finite checks listing offending rows) and which correspondence/oracle suites to run."""
 PROPS = {}
+import extras
 
 PROPS["C18"] = {
     "deps": ["Proofs/C18_conv.vo"],
@@ -116,4 +117,13 @@ PROPS["C05"] = {
     "probes": [{"file": "Probes/Reading.v", "filter": lambda name: name.startswith("C04.token_")}],
     "suites": [("reader", 1600, 60000)],
     "assumptions": ["cursors count characters, not bytes (Scanner collects chars())"],
+}
+
+PROPS["C14"] = {
+    "deps": ["Proofs/C09_Final.vo"],
+    "props": "Props/C14.v",
+    "suites": [("walk", 1000, 30000), ("hist", 400, 8000)],
+    "owner": lambda name: name.startswith("C14.") or name == "C09.history_inverse",
+    "extra": [extras.c14_determinism],
+    "assumptions": ["hash seeds, thread scheduling and process identity are runtime facts: covered by the lint and by multi-process runs, not by a theorem"],
 }
